@@ -20,6 +20,7 @@ type Env struct {
 	noLocals    bool
 	paramsFirst bool
 	calleeMode  bool
+	siblingScope bool // callee is a closure of the same lexical scope (called through a variable): captured variables are shared
 	pos         bool // positive position of a clause that is being asserted: unbound disjuncts count as false
 	pkg         *types.Package
 }
@@ -168,7 +169,7 @@ func (g *Gen) lookupIdent(name string, env *Env) (Term, error) {
 		return Term{S: g.svIn(env.st, "$epoch", "Int"), Sort: "Int"}, nil
 	}
 	param := func() (Term, bool) {
-		if g.fn == nil {
+		if g.fn == nil || env.calleeMode { // a callee clause never sees the caller's parameters
 			return Term{}, false
 		}
 		for _, p := range g.fn.Params {
@@ -204,7 +205,7 @@ func (g *Gen) lookupIdent(name string, env *Env) (Term, error) {
 			return t, nil
 		}
 	}
-	if g.fn != nil {
+	if g.fn != nil && (!env.calleeMode || env.siblingScope) {
 		for _, fv := range g.fn.FreeVars {
 			if fv.Name() == name {
 				et := fv.Type().Underlying().(*types.Pointer).Elem()
@@ -781,6 +782,10 @@ func (g *Gen) evalCall(n *Node, env *Env) (Term, error) {
 		}
 		return Term{S: fmt.Sprintf("(select %s %s)", g.svIn(env.st, "$held", "(Array Int Bool)"), l.S), Sort: "Bool"}, nil
 	case "last", "called":
+		if env.calleeMode {
+			// a callee's clause is about the callee's activation; the caller's call history must not be read
+			return Term{}, fmt.Errorf("unbound name %s() in a callee clause evaluated at a call site", name)
+		}
 		key := g.calleeKeyFromNode(args[0], env)
 		vn := "$" + name + "_" + sanitize(key)
 		srt, ok := g.svSort[vn]
@@ -1069,6 +1074,35 @@ func triggersFor(body, q string) string {
 		}
 		h := n.head()
 		if h == "forall" || h == "exists" {
+			// look into the nested quantifier's body for terms over q that do not mention the inner bound variables
+			if len(n.kids) == 3 {
+				inner := map[string]bool{}
+				for _, b := range n.kids[1].kids {
+					if len(b.kids) == 2 {
+						inner[b.kids[0].atom] = true
+					}
+				}
+				body := n.kids[2]
+				if body.head() == "!" && len(body.kids) >= 2 {
+					body = body.kids[1]
+				}
+				before := len(pats)
+				walk(body, true)
+				// drop candidates that mention an inner bound variable
+				kept := pats[:before]
+				for _, p := range pats[before:] {
+					bad := false
+					for v := range inner {
+						if strings.Contains(p, " "+v+")") || strings.Contains(p, " "+v+" ") {
+							bad = true
+						}
+					}
+					if !bad {
+						kept = append(kept, p)
+					}
+				}
+				pats = kept
+			}
 			return
 		}
 		direct := false
